@@ -151,12 +151,35 @@ func zzWritethrough(maxRows, calls, maxFail int) {
 	n := zz.AnyIntIn("rows", 0, maxRows)
 	m := sliceio.ZZNewModel("up", n)
 	m.MaxEmpty = 1
-	if zz.AnyBool("upstreamFails") {
+	switch zz.AnyIntIn("upstreamFailure", 0, 2) {
+	case 1:
 		m.FailAt = zz.AnyIntIn("failAt", 0, n)
+	case 2: // the computation panics (user code)
+		m.PanicAt = zz.AnyIntIn("panicAt", 0, n) + 1
+		m.PanicValue = "zz: user code panicked"
 	}
 	r := newWritethroughReader(m, "zzpath")
 	// the consumer may stop early (Head): it makes between 0 and `calls` reads
-	d := sliceio.ZZDriveReader(r, zz.AnyIntIn("consumerReads", 0, calls), 1, 2, "dst")
+	reads := zz.AnyIntIn("consumerReads", 0, calls)
+	var d *sliceio.ZZDrive
+	panicked := false
+	func() {
+		defer func() {
+			if e := recover(); e != nil {
+				if _, stop := e.(zz.Stop); stop {
+					panic(e)
+				}
+				panicked = true
+			}
+		}()
+		d = sliceio.ZZDriveReader(r, reads, 1, 2, "dst")
+	}()
+	if panicked {
+		zz.Reach("computation panicked")
+		zz.Assert(m.Panicked, "only the injected panic propagates")
+		zz.Assert(!zzwt.committed, "a computation that panics leaves no committed file")
+		return
+	}
 	// pass-through: rows delivered to the caller are the upstream rows
 	ok := len(d.Keys) <= n
 	for i := range d.Keys {
